@@ -150,8 +150,10 @@ let doc_obs_of st rest =
 let doc_verdicts ts o =
   let agree = doc_agrees ts o && input_wf ts and spec = doc_spec_ok ts o
   and k = doc_kf ts and kin = doc_kf_in ts in
+  (* a finding is recognised by its recorded wrong behaviour -- a wrong tree: the observation
+     agrees with the model up to the cutting of character data (doc_agrees_mod) *)
   let kf =
-    if not agree || spec then "-"
+    if spec || not (doc_agrees_mod ts o && input_wf ts) then "-"
     else if not (doc_spec_main ts o) then (if k then kf_id else "-")
     else if kin then kf_in_id
     else if k then kf_id
@@ -222,7 +224,7 @@ let () =
       (* a finding explains the case only if it explains every copy that fails the specification *)
       let failing = List.filter (fun (_, sp, _) -> not sp) vs in
       let kf =
-        if not agree || spec then "-"
+        if spec then "-"
         else if List.for_all (fun (_, _, k) -> k <> "-") failing
         then (match failing with (_, _, k) :: _ -> k | [] -> "-")
         else "-" in
